@@ -254,6 +254,7 @@ func uploadArm(backend string, st uploader, seq, goroutines, perG int) (errs map
 	}
 	// concurrent phase: perG rounds; in each round all goroutines are released
 	// together and call Upload once (the key is generated at the start of Upload)
+	phaseStart := time.Now()
 	for round := 0; round < perG; round++ {
 		roundStart := time.Now()
 		// Spin barrier rather than a channel close: waking parked goroutines
@@ -279,11 +280,13 @@ func uploadArm(backend string, st uploader, seq, goroutines, perG int) (errs map
 		ready.Wait()
 		start.Store(1)
 		wg.Wait()
-		// Workload limiter, not a verdict: a round normally takes milliseconds. When one takes
-		// seconds (requests failing inside the SDK), the remaining rounds are skipped and what
-		// was observed so far is judged; the "concurrent-uploads" class then stays unhit, so a
-		// run cut short without a violation is INCONCLUSIVE, never "held".
-		if time.Since(roundStart) > 5*time.Second {
+		// Workload limiter, not a verdict: an S3 round normally takes milliseconds, a GCS round
+		// (multipart insert + failing SignedURL) up to a few seconds on a loaded machine. When a
+		// round takes half a minute or the concurrent phase ten minutes (requests failing or
+		// timing out inside the SDK), the remaining rounds are skipped and what was observed so
+		// far is judged; the "concurrent-uploads" class then stays unhit, so a run cut short
+		// without a violation is INCONCLUSIVE, never "held".
+		if time.Since(roundStart) > 30*time.Second || time.Since(phaseStart) > 10*time.Minute {
 			mu.Lock()
 			errs[fmt.Sprintf("rounds cut short after round %d of %d (slow round)", round+1, perG)]++
 			mu.Unlock()
@@ -505,7 +508,7 @@ func main() {
 		// one attempt per PutObject: the fake endpoint never fails, so a retry can only follow a
 		// request the client itself mangled, and then it hides the mangling behind seconds of backoff
 		"AWS_MAX_ATTEMPTS": "1",
-		"NO_GCE_CHECK": "true",
+		"NO_GCE_CHECK":     "true",
 	} {
 		os.Setenv(k, v)
 	}
